@@ -33,6 +33,7 @@ CONSTANTS NU,        \* use the first NU units of UnitList
                      \* "indexes": from the position in list(array.indexes)                  [history: seeded defect sb2]
           Memo,      \* FALSE: every constructor call builds its coordinates afresh [the code]
                      \* TRUE: the coordinate array is memoised on (start, stop, step) and shared [history: seeded defect C16-r4sb1]
+          ClampBy,   \* high clamp of get_coord_index: "dim" = sizes[dim] [the code] / "total" = arr.size [history: seeded defect C16-r6sb1]
           RangeBy,   \* "coords": get_dim_range = min / max of the coordinates [the code]
                      \* "attrs": the start / stop attributes of the coordinate when present [history: seeded defect C16-r4sb2]
           LookupBy,  \* "search": the index is found by comparing with the coordinates [the code]
@@ -96,7 +97,13 @@ AxisVars  == {<<sa, 0>> : sa \in {<<>>, <<<<1, 2>>>>, <<<<1, 3>>>>, <<<<2, 1>>>>
 \*   src = "attrs": annotated with set_dim_attrs(start=, stop=);  src = "extend": the array went through extend_dim, which
 \*   records start - eps (dl = 1 tick: the sliver just below the first coordinate) and the requested stop.
 \* The range of an axis, for raise / clamp as for the bracket, is defined by its coordinates.
-MkIndexR(u, a4, dt, n, p, re, sa, ir, ra) == [kind |-> "index", s |-> u, a4 |-> a4, dt |-> dt, n |-> n, p |-> p, re |-> re, sa |-> sa, ir |-> ir, ra |-> ra]
+\* nd = <<before, after>>: the sizes of the OTHER dimensions of the array, in front of and behind the queried one
+\* (<<<<>>, <<>>>>: a 1-D array).  The index returned, the clamp included, is about the queried dimension only.
+MkIndexN(u, a4, dt, n, p, re, sa, ir, ra, nd) ==
+    [kind |-> "index", s |-> u, a4 |-> a4, dt |-> dt, n |-> n, p |-> p, re |-> re, sa |-> sa, ir |-> ir, ra |-> ra, nd |-> nd]
+MkIndexR(u, a4, dt, n, p, re, sa, ir, ra) == MkIndexN(u, a4, dt, n, p, re, sa, ir, ra, <<<<>>, <<>>>>)
+NdVars == {<<<<5>>, <<>>>>, <<<<>>, <<3>>>>, <<<<1>>, <<4>>>>, <<<<3, 5>>, <<>>>>, <<<<>>, <<2, 1>>>>}      \* query dim last / first / middle (incl. size-1 dims)
+Others(x) == Prod(x.nd[1], 1) * Prod(x.nd[2], 1)
 MkIndex(u, a4, dt, n, p, re, sa, ir) == MkIndexR(u, a4, dt, n, p, re, sa, ir, <<>>)
 RaVars == {<<<<"attrs", 4, 4>>>>, <<<<"attrs", 3 * Tk, 3 * Tk>>>>, <<<<"extend", 1, 6>>>>}
 InitIndex == \/ \E u \in Units, a4 \in Starts, n \in 1..MaxN : \E dt \in Dtypes(u, a4), p \in Positions(n), re \in BOOLEAN :
@@ -107,6 +114,9 @@ InitIndex == \/ \E u \in Units, a4 \in Starts, n \in 1..MaxN : \E dt \in Dtypes(
              \* start / stop attributes wider than the coordinates: first two units, first start, float64
              \/ \E u \in 1..2, n \in 1..MaxN : \E p \in Positions(n), re \in BOOLEAN, ra \in RaVars :
                    c = MkIndexR(UnitList[u], StartList[1], "f8", n, p, re, Matching, 0, ra)
+             \* 2-D and 3-D arrays: first two units, first start, float64, every query class, raise and clamp
+             \/ \E u \in 1..2, n \in 1..MaxN : \E p \in Positions(n), re \in BOOLEAN, nd \in NdVars :
+                   c = MkIndexN(UnitList[u], StartList[1], "f8", n, p, re, Matching, 0, <<>>, nd)
 
 SetPositions(n) == {Tk * k : k \in 0..(n - 1)} \cup {Tk * k + 4 : k \in 0..(n - 2)} \cup {-4, Tk * (n - 1) + 4}
 Shapes == UNION {IF d = 1 THEN {<<x>> : x \in 1..MaxSize}
@@ -200,7 +210,7 @@ Check == /\ c.kind = "index" /\ pc = "start"
             THEN /\ pc' = "done"
                  /\ r' = IF c.re THEN [r EXCEPT !.k = "raise"]
                          ELSE IF c.p < 0 THEN [r EXCEPT !.k = "int", !.v = 0]
-                         ELSE [r EXCEPT !.k = "int", !.v = c.n]
+                         ELSE [r EXCEPT !.k = "int", !.v = IF ClampBy = "total" THEN c.n * Others(c) ELSE c.n]
             ELSE pc' = (IF LookupBy = "step_attr" /\ ~IsNone(c.sa) THEN "fast" ELSE "scan") /\ r' = r
          /\ UNCHANGED <<c, i>>
 \* seeded variant: index = min(round((v - start) / step_attr), n - 1), minus one if that coordinate is > v.
